@@ -316,8 +316,23 @@ func runCheck(prop, repo, out string, thorough, debug bool) int {
 	return pc.run(prop, g, idx, cs, out, replayDir, tier, seed, t0, failClosed)
 }
 
+// evidenceDir is where a run records what it covered. Only a run on the real
+// repository (/repo) writes /verif/evidence; a run on a scratch copy (-repo,
+// used by tools/selftest.py for the must-fail corpus) writes under work/, so a
+// deliberately broken tree can never overwrite the evidence of the real one.
+func evidenceDir(out string) string {
+	if repoRoot != "/repo" {
+		return filepath.Join(out, "work", "scratch-evidence")
+	}
+	return filepath.Join(out, "evidence")
+}
+
 func writeEvidence(out string, ev evidence) {
-	os.MkdirAll(filepath.Join(out, "evidence"), 0o755)
+	if ev.Assumptions == nil {
+		ev.Assumptions = []string{}
+	}
+	dir := evidenceDir(out)
+	os.MkdirAll(dir, 0o755)
 	b, _ := json.MarshalIndent(ev, "", " ")
-	os.WriteFile(filepath.Join(out, "evidence", ev.PropertyID+".json"), append(b, '\n'), 0o644)
+	os.WriteFile(filepath.Join(dir, ev.PropertyID+".json"), append(b, '\n'), 0o644)
 }
